@@ -8,7 +8,7 @@ META = {'claimed': True,
                "HMAC; C11_generator_is_hmac_drbg_sha256 with the HMAC hypotheses discharged by C01's theorems for alg/sha256.c); a request of n bytes makes exactly ceil(n/65536) generate calls "
                '(C11_generate_count); fresh entropy is mixed in exactly before generate calls 257, 513, ... (C11_reseed_schedule); every generate ran seeded with reseed_counter <= 256, entropy reads '
                "are the oracle's answers in order, a call fails iff one of its entropy reads failed, a failed instantiation leaves the statics untouched, and success implies a successful 48-byte "
-               'instantiate in the history (C11_no_unseeded_output, C11_call_facts). 13 theorems, unbounded in history. Bound to the C by the correspondence run (entropy source interposed with '
+               'instantiate in the history (C11_no_unseeded_output, C11_call_facts). 11 theorems, unbounded in history. Bound to the C by the correspondence run (entropy source interposed with '
                'scripted bytes and failures at every position; request sizes around 65536 multiples; > 256 generate calls; output = model = spec).',
  'level_note': 'Trusted: Coq kernel; hand-written model bound by differential execution; the transcription of SP 800-90A 10.1.2 in Crypto/DrbgSpec.v; the OS entropy source is an oracle (list of read '
                'answers). Print Assumptions: closed under the global context.',
